@@ -210,6 +210,8 @@ class ImplRun:
         self.oracle_gen = 0
         self.stale = []
         self.reoracle = zlib.crc32(text.encode()) % 2 == 0
+        self.dup_in_sf = zlib.crc32(text.encode()) % 3 == 1
+        self.dup_results = []
         self._register_oracle()
 
     # -- identifiers -----------------------------------------------------
@@ -319,6 +321,14 @@ class ImplRun:
         if lid == 0:
             if e[5] in self.pending:
                 self.pending.remove(e[5])
+            if self.dup_in_sf:
+                # the completion that is being delivered right now, reported once more from inside
+                # its own service-finished notification: it must be refused.  A refused event
+                # changes nothing (C08), so the rest of the trace stays comparable with the models;
+                # the answer is kept aside and judged by pymon.reentrant_duplicates_refused
+                with contextlib.redirect_stdout(io.StringIO()):
+                    r = self.s.fire_event(Event("service_finished", {"service_uuid": a.uuid}))
+                self.dup_results.append((e[5], bool(r)))
             self._react("SF")
 
     def _register_oracle(self):
